@@ -132,8 +132,13 @@ Definition iq_refused (t : iqtype) : bool :=
   match t with TGet | TSet => false | TOther | TPending => true end.
 
 Inductive op :=
-| OSend (data : str) (nonza : bool)   (* nonza: the packet is an SMRequest or SMAnswer *)
-| OSendRaw (s : str) (nonza : bool)  (* nonza: the string's first element is an <r/> or <a/> of urn:xmpp:sm:3 *)
+(* nonza: the packet is NOT a stanza: its serialisation (the raw string) does not begin
+   with a message, presence or iq element of the client namespace - an acknowledgement
+   request or answer, another nonza, a white space keepalive, the empty string, a nil
+   packet (client.go isStanza).  Stream management holds and numbers exactly the stanzas,
+   which is what the server counts. *)
+| OSend (data : str) (nonza : bool)
+| OSendRaw (s : str) (nonza : bool)
 | OSendIQ (data : str) (t : iqtype).
 
 Definition op_data (o : op) : str :=
